@@ -60,14 +60,14 @@ def typOf (s : String) : TxType := (TxType.ofString? s).getD .buy
 def b01 (b : Bool) : String := if b then "1" else "0"
 
 def showRow : RRow → String
-  | .ioIn a r tx sold amt run => s!"IOIN {a} {r} {tx} {so sr sold} {sr amt} {sr run}"
-  | .ioOut a r tx amt fee run frun => s!"IOOUT {a} {r} {tx} {sr amt} {sr fee} {sr run} {sr frun}"
-  | .ioIntra a r tx s rc fee frun => s!"IOX {a} {r} {tx} {sr s} {sr rc} {sr fee} {sr frun}"
+  | .ioIn a r tx sold amt run fiat => s!"IOIN {a} {r} {tx} {so sr sold} {sr amt} {sr run} {" ".intercalate (fiat.map sr)}"
+  | .ioOut a r tx amt fee run frun fiat => s!"IOOUT {a} {r} {tx} {sr amt} {sr fee} {sr run} {sr frun} {" ".intercalate (fiat.map sr)}"
+  | .ioIntra a r tx s rc fee frun fiat => s!"IOX {a} {r} {tx} {sr s} {sr rc} {sr fee} {sr frun} {" ".intercalate (fiat.map sr)}"
   | .taxY a r y t l g amt fiat cost => s!"TY {a} {r} {y} {t} {b01 l} {sr g} {sr amt} {sr fiat} {sr cost}"
   | .taxB a r acct acq s rc f => s!"TB {a} {r} {acct} {sr acq} {sr s} {sr rc} {sr f}"
   | .taxT a r h v => s!"TT {a} {r} {h} {sr v}"
   | .taxP a r p => s!"TP {a} {r} {sr p}"
-  | .taxD a r ev lot amt run g l el ll k n lk ln => s!"TD {a} {r} {ev} {so toString lot} {sr amt} {sr run} {sr g} {b01 l} {so toString el} {so toString ll} {k}/{n} {so toString lk}/{so toString ln}"
+  | .taxD a r ev lot amt run g l el ll k n lk ln fiat => s!"TD {a} {r} {ev} {so toString lot} {sr amt} {sr run} {sr g} {b01 l} {so toString el} {so toString ll} {k}/{n} {so toString lk}/{so toString ln} {" ".intercalate (fiat.map sr)}"
   | .summ r a y t l link => s!"SU {r} {a} {y} {t} {b01 l} {so toString link}"
 
 def runR (c : RCase) : List String :=
